@@ -96,7 +96,8 @@ def run_case(case):
         exprs = case['exprs']
         try:
             chain = mk_type(kind, exprs, case.get('tags', ()), case.get('bare', False), case.get('root_class', False))
-        except error.PyAsn1Error as e:
+        except Exception as e:
+            # (deriving a type from legal constraints through the public API must work, whatever the exception class)
             F('build', 'raises', 'building the constrained type raised %s: %s | %s' % (harness.exc_sig(e), str(e)[:100], ir.jdump(exprs)[:200]), harness.exc_sig(e))
             return fails
         T = chain[-1]
